@@ -46,7 +46,9 @@ fn main() {
         // C14 at the connection: the configured maximum frame length is enforced in every protocol state
         "C14" => c04::run_filtered(&cli, Some(&["malformed-input-accepted/", "body-consumed-after-refused-length/", "reply-after-refused-length/"])),
         // C18 at the connection: the allow/block lists and strategies are given the authenticated player
-        "C18" => c01::run_filtered(&cli, Some("routing-identity")),
+        // (and the strategy is offered exactly what the filters left: a target is "the first eligible" or
+        // "the fullest eligible" among all of them, not among some)
+        "C18" => c01::run_filtered_with(&cli, Some("routing-identity"), Some((&c03::scenarios_into, "strategy-input-differs-from-filter-output"))),
         other => {
             println!("[{other}] INCONCLUSIVE: vp-conn does not serve this property");
             2
